@@ -185,6 +185,10 @@ def message_candidates(o, seed, focus=None):
             if focus and not focus(ident):
                 continue
             yield {"payload": p.hex(), "labelmsm": lm}
+            if lm == 1:  # every signed field at 'sign bit only' (most negative two's complement value / sign-magnitude minus zero)
+                q = encoder.sign_only_variant(p)
+                if q is not None:
+                    yield {"payload": q.hex(), "labelmsm": lm}
             if rnd.random() < 0.5 and len(p) > 3:  # truncations (C06)
                 yield {"payload": p[:rnd.randrange(3, len(p))].hex(), "labelmsm": lm}
                 yield {"payload": p[:-1].hex(), "labelmsm": lm}
